@@ -139,7 +139,8 @@ Snap ==
               /\ SeqToSet(R.connected) = ConnectedSet /\ Len(R.connected) = Cardinality(ConnectedSet)
               /\ \A p \in Peers : R.is_connected[p + 1] = (p \in ConnectedSet))
   /\ G("C06", (\E i \in Ids : denied[i] /\ bterm[i] # "none") =>
-                 (R.established = Cardinality({i \in Ids : estPeer[i] # -1}) /\ R.pending = Cardinality({i \in Ids : pend[i] # "none"})))
+                 (/\ R.established = Cardinality({i \in Ids : estPeer[i] # -1}) /\ R.pending = Cardinality({i \in Ids : pend[i] # "none"})
+                  /\ SeqToSet(R.connected) = ConnectedSet /\ R.num_peers = Cardinality(ConnectedSet)))      \* the denied peer is not reported as connected
   /\ UNCHANGED <<bterm, sterm, bclosed, sclosed, q, pend, estPeer, estDir, expect, auth, denied, handed, inDial, syncFail, idErr>>
 
 End ==
@@ -158,7 +159,7 @@ Skip ==
                  "cbNewListener", "cbNewListenAddr", "cbExpiredListenAddr", "cbListenerError", "cbListenerClosed",
                  "cbNewExternalAddrCandidate", "cbExternalAddrConfirmed", "cbExternalAddrExpired", "cbNewExternalAddrOfPeer",
                  "cbAddressChange", "cbHandlerEvent", "hEvent", "hLocalProto", "hRemoteProto", "hAddressChange", "cbOther",
-                 "emitQueued", "bEmit", "emitF", "hEmit", "hRequestOut", "hStream"}
+                 "emitQueued", "bEmit", "emitF", "hEmit", "hRequestOut", "hStream", "ranTask"}
      \/ R.e = "swarmEvent" /\ R.kind \notin {"est", "outErr", "inErr", "closed", "incoming"}
      \/ R.e \in {"cbDialFailure", "cbListenFailure", "cbConnEstablished", "cbConnClosed"} /\ ~B1
   /\ UNCHANGED <<bterm, sterm, bclosed, sclosed, q, pend, estPeer, estDir, expect, auth, denied, handed, inDial, syncFail, idErr>>
